@@ -3,7 +3,7 @@ import numpy as np, random
 from fractions import Fraction
 from harness import lib, oracles
 from harness.lib import dense, close, consistent
-from harness.props.c01 import gen_tt, gen_shape, rranks, shape_tags, describe
+from harness.props.c01 import gen_tt, gen_entries, gen_shape, rranks, shape_tags, describe
 
 import scikit_tt.tensor_train as ttm
 from scikit_tt.tensor_train import TT
@@ -156,6 +156,69 @@ def side_case(rng):
     return None, desc
 
 
+def seq_case(rng):
+    """sequences of sweeps on ONE object, with storage layouts, boundary ranks and array sharing that single calls on freshly
+    generated C-ordered trains never meet"""
+    order = rng.randint(1, 4)
+    op = rng.random() < 0.5
+    rows, cols, ranks = lib.rand_shape(rng, order, op=op, maxdim=3, maxrank=3)
+    cplx = rng.random() < 0.3
+    variant = rng.choice(['plain', 'fortran', 'open', 'shared'])
+    if variant == 'open':                       # open boundary ranks (u and v of TT.svd are such trains)
+        if rng.random() < 0.5:
+            ranks[0] = rng.randint(2, 3)
+        if ranks[0] == 1 or rng.random() < 0.5:
+            ranks[-1] = rng.randint(2, 3)
+    if variant == 'shared':                     # the same array object at several positions (all bonds of rank 1)
+        n, m = rows[0], cols[0]
+        c = gen_entries(rng, (1, n, m, 1), cplx, 'float')
+        t = TT([c] * order)
+        rows, cols, ranks = [n] * order, [m] * order, [1] * (order + 1)
+    else:
+        t = gen_tt(rng, rows, cols, ranks, cplx, 'float')
+    if variant == 'fortran':
+        for i in range(order):
+            if rng.random() < 0.7:
+                t.cores[i] = np.asfortranarray(t.cores[i])
+    desc = dict(variant=variant, rows=rows, cols=cols, ranks=list(ranks), complex=cplx, calls=[])
+    before = dense(t.cores)
+    for step in range(rng.randint(1, 3)):
+        which = rng.choice(['left', 'right', 'ortho'] + (['right', 'right'] if variant == 'fortran' else []))
+        ranks0 = list(t.ranks)
+        if which == 'left':
+            start = rng.randint(0, max(0, order - 2))
+            end = rng.randint(max(start - 1, 0), order - 2) if order >= 2 else -1
+            desc['calls'].append(['left', start, end])
+            res = t.ortho_left(start_index=start, end_index=end)
+            processed, gram = list(range(start, end + 1)), gram_left
+        elif which == 'right':
+            start = rng.randint(0, order - 1)
+            end = rng.randint(1, start + 1) if start >= 1 else 1
+            desc['calls'].append(['right', start, end])
+            res = t.ortho_right(start_index=start, end_index=end)
+            processed, gram = list(range(end, start + 1)), gram_right
+        else:
+            desc['calls'].append(['ortho'])
+            res = t.ortho()
+            processed, gram = list(range(1, order)), gram_right
+        if res is not t:
+            return 'did not return self', desc
+        if not consistent(t):
+            return 'metadata inconsistent with cores after call %d' % (step + 1), desc
+        if list(t.row_dims) != rows or list(t.col_dims) != cols or t.ranks[0] != ranks[0] or t.ranks[-1] != ranks[-1]:
+            return 'dimensions or boundary ranks changed after call %d' % (step + 1), desc
+        now = dense(t.cores)
+        if now.shape != before.shape or not close(now, before, 1e-9):
+            return 'value changed by call %d: max err %.3e' % (step + 1, float(np.max(np.abs(now - before))) if now.shape == before.shape else -1), desc
+        if any(a > b for a, b in zip(t.ranks, ranks0)):
+            return 'a rank increased in call %d: %s -> %s' % (step + 1, ranks0, t.ranks), desc
+        for i in processed:
+            g = gram(t.cores[i])
+            if not close(g, np.eye(g.shape[0]), 1e-9):
+                return 'core %d is not an isometry after call %d' % (i, step + 1), desc
+    return None, desc
+
+
 def run(ctx):
     quick = ctx.tier == 'quick'
     lib.stage_proof(ctx, PROP_FILES, ['Check/C03.vo'])
@@ -200,6 +263,17 @@ def run(ctx):
         if msg:
             ctx.fail('ortho: ' + msg, {'gen': 'side_case', 'case_seed': cs, 'case': desc}, tags={'op': desc['which']})
             break
+    for k in range(800 if quick else 20000):
+        cs = ctx.rng.getrandbits(48)
+        try:
+            msg, desc = seq_case(random.Random(cs))
+        except Exception as e:
+            msg, desc = 'raised %r' % (e,), {'variant': 'exception', 'case_seed': cs}
+        ctx.side_cases += 1
+        ctx.evaluations += 1
+        ctx.count('seq:' + str(desc.get('variant')))
+        if msg:
+            ctx.fail('ortho sequence: ' + msg, {'gen': 'seq_case', 'case_seed': cs, 'case': desc}, tags={'op': 'sequence', 'variant': desc.get('variant')})
     return ctx.finish(level='proof', checker_cmd='make -C coq (full .vo build) && coqc Props/C03.v (Print Assumptions audit)',
                       trusted=TRUSTED, explanation=RULE)
 
@@ -209,7 +283,7 @@ TRUSTED = ['Coq 8.16.1 kernel (coqc, vm_compute for case evaluation)', 'harness/
            'IEEE rounding not modelled']
 RULE = ('correspondence: integer-valued TTs, scipy.linalg.svd replaced by a tape oracle (arbitrary integer answers of admissible shape / exact trivial factorisation); '
         'the model must hand the oracle the same matrices and return the same cores and cached ranks. non-trivial/distinct = (sweep kind, edge-shape tags + oracle kind, >=1 svd call) cells; '
-        'side check: float/complex TTs incl. rank-deficient cores, value/isometry/rank/frame/consistency against NumPy')
+        'side check: float/complex TTs incl. rank-deficient cores, value/isometry/rank/frame/consistency against NumPy; sequences of 1-3 sweeps on one object with Fortran-ordered cores, open boundary ranks and one array object shared by several positions')
 
 
 def replay(obj):
@@ -217,6 +291,10 @@ def replay(obj):
     if r.get('gen') == 'side_case':
         msg, desc = side_case(random.Random(r['case_seed']))
         print('replay side_case seed=%s: %s' % (r['case_seed'], msg or 'OK (no failure)'))
+        return 1 if msg else 0
+    if r.get('gen') == 'seq_case':
+        msg, desc = seq_case(random.Random(r['case_seed']))
+        print('replay seq_case seed=%s: %s' % (r['case_seed'], msg or 'OK (no failure)'))
         return 1 if msg else 0
     print('replay: correspondence/proof obligation; see file')
     return 1
